@@ -132,11 +132,25 @@ def main():
     def local_offset(sec):
         return time.localtime(sec).tm_gmtoff
 
+    def guarded(case):
+        """an exception raised inside the library for an input of the domain is a violation
+        (the property demands an encoding / a decoded value), not a harness error"""
+        try:
+            return oracle(case)
+        except Fail:
+            raise
+        except Exception as e:
+            site = runner.lib_site(e)
+            if site == 'outside-pamqp':
+                raise
+            raise Fail('raises:%s@%s' % (type(e).__name__, site),
+                       'case %r: the library raised %r' % (case, e))
+
     if sys.argv[1] == '--case':
         case = json.loads(sys.argv[2])
         set_zone(case['tz'])
         try:
-            oracle(case)
+            guarded(case)
             print(json.dumps({'ok': True}))
         except Fail as f:
             print(json.dumps({'ok': False, 'bucket': f.bucket, 'msg': f.msg}))
@@ -159,7 +173,7 @@ def main():
             if len(res['samples']) < 3:
                 res['samples'].append(dict(case, local_utc_offset=off_now))
         try:
-            return oracle(case)
+            return guarded(case)
         except Fail as f:
             cur = res['failures'].get(f.bucket)
             if cur is None or len(json.dumps(case)) < len(json.dumps(cur['case'])):
